@@ -2,7 +2,7 @@
 # seed_finish.sh <ID> <name> <detected-by text> — record detection, fix demo paths, drop scratch data
 ID=$1; NAME=$2; TXT=$3
 D=/verif/seeded/$NAME
-sed -i "s#/tmp/seed_$ID/#/verif/seeded/$NAME/#g" $D/demo_cmd.txt $D/meta.json 2>/dev/null
+sed -i "s#/tmp/seed[0-9]*_$ID/#/verif/seeded/$NAME/#g" $D/demo_cmd.txt $D/meta.json 2>/dev/null
 python3 - "$D/meta.json" "$ID" "$TXT" <<'PY'
 import json,sys
 p,pid,txt=sys.argv[1:4]
@@ -10,4 +10,4 @@ m=json.load(open(p))
 m['detected_by']={"check":"./check %s (quick)"%pid,"result":txt}
 json.dump(m,open(p,'w'),indent=1)
 PY
-git -C /repo worktree remove --force /tmp/mut_$ID 2>/dev/null; rm -rf /tmp/seed_$ID /tmp/mut_$ID /verif/seeded/_pending/$ID; git -C /repo worktree prune
+# scratch worktrees are removed by the caller when the property's agent is done
